@@ -342,13 +342,16 @@ func trimStack(s string) string {
 }
 
 // enabledTasks returns the tasks that can take a step, in canonical order:
-// the running task first (if enabled), then ascending ids.
+// the running task first (if enabled), then descending ids (most recently created first).
 func (e *Exec) enabledTasks(self *task) []*task {
 	var out []*task
 	if self != nil && !self.done && self.op != nil && e.opReady(self.op) {
 		out = append(out, self)
 	}
-	for _, t := range e.tasks {
+	// most recently created first: the helpers an operation has spawned (walkers, producers) run before
+	// older, unrelated tasks, so that by default an operation and its helpers proceed together
+	for i := len(e.tasks) - 1; i >= 0; i-- {
+		t := e.tasks[i]
 		if t == self || t.done || t.op == nil {
 			continue
 		}
